@@ -99,6 +99,8 @@ pub fn generate(prop: &str, rng: &mut Rng, plan: &mut Plan, index: u64) {
     // API history
     let n = 2 + rng.below(11) as usize;
     let long_ok = index % 97 == 0; // a few runs may wait for hours without the child exiting
+    // thorough tier: now and then the full back-off loop of a multi-week timeout (tens of millions of iterations)
+    let weeks_ok = crate::plan::thorough() && prop == "C11" && index % 40_000 == 11;
     for _ in 0..n {
         let op = match rng.below(if prop == "C11" { 14 } else { 18 }) {
             0 | 1 => StatusOp::Poll,
@@ -119,7 +121,15 @@ pub fn generate(prop: &str, rng: &mut Rng, plan: &mut Plan, index: u64) {
         ops_push(&mut sp.ops, op);
     }
     // bound the total cost of back-off loops: long timeouts only when the child ends soon
-    let mut budget: u64 = if long_ok { 3 * 3_600 * 1_000_000_000 } else { 600 * 1_000_000_000 };
+    let mut budget: u64 = if weeks_ok { 57 * DAY } else if long_ok { 3 * 3_600 * 1_000_000_000 } else { 600 * 1_000_000_000 };
+    if weeks_ok {
+        // one wait of > 25 days against a child that never exits: 22+ million iterations
+        sp.ops = vec![StatusOp::WaitTimeout(26 * DAY + 5_000_000), StatusOp::Poll, StatusOp::Kill, StatusOp::Wait];
+        sp.child_life_ns = 400 * DAY;
+        plan.programs[0] = vec![Op::Sleep { ns: 400 * DAY }, Op::Exit { code: 0 }];
+        plan.knobs.step_cap = 400_000_000;
+        plan.knobs.faults = Default::default();
+    }
     for op in sp.ops.iter_mut() {
         if let StatusOp::WaitTimeout(d) = op {
             if life > 60_000_000_000 {
